@@ -42,6 +42,11 @@ class Faulty:
                         raise MemoryError("injected")
                     if kind == "exit":
                         os._exit(3)
+                    if kind == "term":
+                        os.kill(os.getpid(), signal.SIGTERM)  # kill <pid>, a container stop, scancel ...
+                        import time as _t
+
+                        _t.sleep(5)
                     os.kill(os.getpid(), signal.SIGKILL)
         return self._a(*a, **k)
 
